@@ -31,7 +31,7 @@ Your task: produce ONE realistic change to the source of mimium-rs (the kind of 
   (2) the whole existing test suite still passes: `cd {wt} && cargo nextest run --workspace --no-fail-fast --test-threads 8 --offline` (358 tests; all must pass; it takes 1-3 minutes after the first build),
   (3) the breakage needs something specific to manifest - a particular multi-step sequence of operations, an unusual input shape or value, a particular interleaving, a fault at a particular point, or two cooperating code sites that each look fine alone - NOT something that ordinary use or the first program anyone writes would expose at once. Prefer a change deep in the mechanism behind the property (read the code first: find the places that make the property true today) to a superficial one. Small diffs are best (typically 1-15 lines).
 {prev_txt}
-Also produce a DEMONSTRATION: a Rust integration test file (to be dropped into {wt}/crates/lib/mimium-test/tests/ and run with `cargo test -p mimium-test --test <name> --offline`), or if that is not practical a small program / shell script, that FAILS with your change and PASSES on the unchanged tree. Verify both directions yourself (use `git stash` / `git stash pop` to switch between changed and unchanged sources; remove the demo file from the crate's tests directory afterwards so that the suite count stays 358).
+Also produce a DEMONSTRATION: a Rust integration test file (to be dropped into {wt}/crates/lib/mimium-test/tests/ and run with `cargo test -p mimium-test --test <name> --offline`), or if that is not practical a small program / shell script, that FAILS with your change and PASSES on the unchanged tree. Verify both directions yourself (to switch between changed and unchanged sources use `git diff > my.diff; git apply -R my.diff` and `git apply my.diff` - do NOT use `git stash`: the stash is shared by all worktrees of the repository and other people are working in theirs; remove the demo file from the crate's tests directory afterwards so that the suite count stays 358).
 
 Deliver everything in the directory {wt}/seeded/ (create it; it is the only thing you add besides your source change, which must remain applied in the worktree when you finish):
   - seeded/patch.diff : `git diff` of the source change only (paths relative to the repository root; must apply with `git apply` to a clean checkout; must not include the demo or seeded/ itself)
